@@ -81,11 +81,20 @@ theorem headers_ok {sl : List DerivedCol} {fields : List Field} (h : ColumnsReso
 theorem projectColumns_nostar_iff {sl : List DerivedCol} {fields : List Field} {rows p : List Row}
     {hdr : List Field} (hs : isStar sl = false) :
     projectColumns sl fields rows = .ok (p, hdr) ↔
-      ColumnsResolve sl fields ∧
+      sl ≠ [] ∧ ColumnsResolve sl fields ∧
       mapX (fun row => mapX (fun d => projectItem d.item fields row) sl) rows = .ok p ∧
       mapX (fun d => headerOf d fields) sl = .ok hdr := by
+  by_cases hne : sl = []
+  · subst hne
+    constructor
+    · intro h; cases h
+    · rintro ⟨h, _⟩; exact absurd rfl h
+  have he : sl.isEmpty = false := by
+    cases sl with
+    | nil => exact absurd rfl hne
+    | cons _ _ => rfl
   unfold projectColumns
-  simp only [hs, Bool.false_eq_true, if_false]
+  simp only [he, hs, Bool.false_eq_true, if_false]
   constructor
   · intro h
     obtain ⟨r, hr, h⟩ := bind_eq_ok.1 h
@@ -93,24 +102,30 @@ theorem projectColumns_nostar_iff {sl : List DerivedCol} {fields : List Field} {
     obtain ⟨hdr', hh', h⟩ := bind_eq_ok.1 h
     simp only [pure_eq_ok, X.ok.injEq, Prod.mk.injEq] at h
     obtain ⟨rfl, rfl⟩ := h
-    exact ⟨lookupsX_ok_iff.1 ⟨r, hr⟩, hp', hh'⟩
-  · rintro ⟨hres, hp, hh⟩
+    exact ⟨hne, lookupsX_ok_iff.1 ⟨r, hr⟩, hp', hh'⟩
+  · rintro ⟨_, hres, hp, hh⟩
     obtain ⟨r, hr⟩ := lookupsX_ok_iff.2 hres
     simp only [hr, hp, hh, bind_ok, pure_eq_ok]
+
+theorem isEmpty_false_of_ne_nil {α : Type} {l : List α} (h : l ≠ []) : l.isEmpty = false := by
+  cases l with
+  | nil => exact absurd rfl h
+  | cons _ _ => rfl
 
 /-- the output header does not depend on the rows: it is the header the judge computes from the
 empty row list -/
 theorem projectColumns_header {sl : List DerivedCol} {fields : List Field} {rows p : List Row}
     {hdr : List Field} (h : projectColumns sl fields rows = .ok (p, hdr)) :
     projectColumns sl fields [] = .ok ([], hdr) := by
+  have he := isEmpty_false_of_ne_nil (NoPanicP.projectColumns_ok_ne_nil h)
   cases hs : isStar sl with
   | true =>
     unfold projectColumns at h ⊢
-    simp only [hs, if_true, X.ok.injEq, Prod.mk.injEq] at h ⊢
+    simp only [he, Bool.false_eq_true, if_false, hs, if_true, X.ok.injEq, Prod.mk.injEq] at h ⊢
     exact ⟨trivial, h.2⟩
   | false =>
-    obtain ⟨hres, _, hh⟩ := (projectColumns_nostar_iff hs).1 h
-    exact (projectColumns_nostar_iff hs).2 ⟨hres, rfl, hh⟩
+    obtain ⟨hne, hres, _, hh⟩ := (projectColumns_nostar_iff hs).1 h
+    exact (projectColumns_nostar_iff hs).2 ⟨hne, hres, rfl, hh⟩
 
 /-- the rows of the select list, as the specification writes them -/
 theorem projectRows_iff_spec {sl : List DerivedCol} {fields : List Field} {rows p : List Row} :
@@ -137,7 +152,10 @@ theorem specTail_plain {q : Select} {fields : List Field} {src want : List Row}
         src.mapM (fun r => q.list.mapM fun d => itemVal d.item fields r) = some want := by
   unfold specTail
   cases hs : isStar q.list with
-  | true => simp only [if_true, Option.some.injEq]; exact eq_comm
+  | true =>
+    simp only [if_true, any_isAgg_eq_hasAggr, hagg, hgb, List.isEmpty_nil, Bool.not_false,
+      Bool.and_self, Option.some.injEq]
+    exact eq_comm
   | false =>
     simp only [Bool.false_eq_true, if_false, any_isAgg_eq_hasAggr, hagg, hgb, List.isEmpty_nil,
       Bool.not_false, Bool.and_self, if_true]
@@ -152,14 +170,15 @@ theorem specTail_plain {q : Select} {fields : List Field} {src want : List Row}
 /-- **the select list, executor = specification** (no aggregate, no GROUP BY): `projectColumns`
 returns the rows `p` (under some header) exactly when the select-list part of the meaning is `p` -/
 theorem projectColumns_iff_specTail {q : Select} {fields : List Field} {rows p : List Row}
-    (hagg : hasAggr q.list = false) (hgb : q.groupBy = []) :
+    (hne : q.list ≠ []) (hagg : hasAggr q.list = false) (hgb : q.groupBy = []) :
     (∃ hdr, projectColumns q.list fields rows = .ok (p, hdr)) ↔ specTail q fields rows = some p := by
   rw [specTail_plain hagg hgb]
   cases hs : isStar q.list with
   | true =>
     simp only [if_true]
     unfold projectColumns
-    simp only [hs, if_true, X.ok.injEq, Prod.mk.injEq]
+    simp only [isEmpty_false_of_ne_nil hne, Bool.false_eq_true, if_false, hs, if_true, X.ok.injEq,
+      Prod.mk.injEq]
     constructor
     · rintro ⟨_, h, _⟩; exact h.symm
     · intro h; exact ⟨fields, h.symm, rfl⟩
@@ -167,11 +186,11 @@ theorem projectColumns_iff_specTail {q : Select} {fields : List Field} {rows p :
     simp only [Bool.false_eq_true, if_false]
     constructor
     · rintro ⟨hdr, h⟩
-      obtain ⟨hres, hp, _⟩ := (projectColumns_nostar_iff hs).1 h
+      obtain ⟨_, hres, hp, _⟩ := (projectColumns_nostar_iff hs).1 h
       exact ⟨hres, projectRows_iff_spec.1 hp⟩
     · rintro ⟨hres, hp⟩
       obtain ⟨hdr, hh⟩ := headers_ok hres
-      exact ⟨hdr, (projectColumns_nostar_iff hs).2 ⟨hres, projectRows_iff_spec.2 hp, hh⟩⟩
+      exact ⟨hdr, (projectColumns_nostar_iff hs).2 ⟨hne, hres, projectRows_iff_spec.2 hp, hh⟩⟩
 
 /-! ### ORDER BY -/
 
